@@ -652,7 +652,8 @@ def gen_programs(ck):
         prog = g.program()
         progs.append(("clean" if clean else "dirty", prog))
         has_func = any(st["op"] == "func" for st, *_ in L.walk(prog["nodes"]))
-        if clean and (has_func or rng.random() < 0.08):
+        has_dyn = any(st["op"] == "dyn" for st, *_ in L.walk(prog["nodes"]))
+        if clean and not has_dyn and (has_func or rng.random() < 0.08):
             # multi-build history: the same Vars (function applications included) are first built into
             # a model with the original outputs, then into one whose maximum is raised by v21 identities
             p2 = copy.deepcopy(prog)
